@@ -82,18 +82,19 @@ Theorem C19_elf_roundtrip : forall (m m' : mode) (e name p e' : list byte),
   add_elf m e name p = Ok e' -> extract_elf m' e' name = Ok p.
 Proof. exact elf_roundtrip. Qed.
 
-(* What is preserved.  FULL statement aimed at (design.d/C19.md): bytes of e' below the insertion point
-   equal e's except e_shoff and e_shnum; every old section header is preserved except sh_offset
-   (+ |name|+1 for sections listed after the names section) and the names section's sh_size
-   (+ |name|+1); every old section's contents are found at its (shifted) offset.
-   PROVED here: the byte-level facts from which that follows - untouched prefix, inserted name, the
-   block between name table and old section header table moved up by |name|+1 unchanged, payload
-   position, new length, and all section header bytes outside the sh_offset fields of later sections
-   and the sh_size field of the names section.  NOT proved: the new *values* of those two kinds of
-   fields (only exercised by the differential check and the python oracle), hence "_partial".
-   Not claimed at all: program headers (the loader's view) - they are untouched iff they lie below
-   the insertion point, which the check verifies on the real binary. *)
-Theorem C19_elf_preserves_partial : forall (m : mode) (e name p e' : list byte),
+(* What is preserved (full statement): bytes of e' below the insertion point (the end of the name
+   table) equal e's except e_shoff (0x28) and e_shnum (0x3C), which take their new values; the name and a
+   NUL are inserted there; every byte from the insertion point up to the old section header table is
+   found |name|+1 bytes later - so every old section's contents are found at its unchanged offset
+   (sections before the insertion point) or at its offset + |name|+1 (sections behind it); the
+   payload follows, then the new section header table, in which every old section header is kept byte
+   for byte except sh_offset of the sections listed after the names section (+ |name|+1) and sh_size of
+   the names section (+ |name|+1).  (Whether "listed after the names section" coincides with "lies
+   behind the insertion point in the file" is a property of the input layout, true of linker output
+   and checked on the real binary; the theorem states what the code does for every layout.)
+   Not claimed: program headers (the loader's view) - they are untouched iff they lie below the
+   insertion point, which the check verifies on the real binary before running it. *)
+Theorem C19_elf_preserves : forall (m : mode) (e name p e' : list byte),
   wf_elf e ->
   lenN e + lenN name + lenN p + 65537 < 18446744073709551616 ->
   add_elf m e name p = Ok e' ->
@@ -103,12 +104,14 @@ Theorem C19_elf_preserves_partial : forall (m : mode) (e name p e' : list byte),
   (forall o n, o + n <= pos -> (o + n <= 40 \/ 48 <= o) -> (o + n <= 60 \/ 62 <= o) -> subN e' o n = subN e o n) /\
   fieldN e' 40 8 = shoff + k + lenN p /\ fieldN e' 60 2 = shnum + 1 /\
   subN e' pos k = name ++ [zero] /\
-  subN e' (pos + k) (shoff - pos) = subN e pos (shoff - pos) /\
+  (forall o n, pos <= o -> o + n <= shoff -> subN e' (o + k) n = subN e o n) /\
   subN e' (shoff + k) (lenN p) = p /\
   lenN e' = shoff + k + lenN p + (shnum + 1) * se /\
   (forall o n, (forall j, sx < j < shnum -> o + n <= j * se + 24 \/ j * se + 32 <= o) ->
                (o + n <= sx * se + 32 \/ sx * se + 40 <= o) -> o + n <= shnum * se ->
-               subN e' (shoff + k + lenN p + o) n = subN e (shoff + o) n).
+               subN e' (shoff + k + lenN p + o) n = subN e (shoff + o) n) /\
+  (forall j, sx < j < shnum -> fieldN e' (shoff + k + lenN p + (j * se + 24)) 8 = sh_field e j 24 8 + k) /\
+  fieldN e' (shoff + k + lenN p + (sx * se + 32)) 8 = names_size e + k.
 Proof. exact elf_preserves. Qed.
 
 (* ---------------------------------------------------------------------------------------------
